@@ -3,22 +3,35 @@
 //
 // A case is an operation history over 1–3 base buckets (memory or disk) and ONE composite read
 // bucket built from them with MapReadBucket / FilterReadBucket / MultiReadBucket /
-// OverlayReadBucket (random nesting, depth ≤ 3).  Writes go to the bases, reads go through the
+// OverlayReadBucket / StripReadBucketExternalPaths (random nesting, depth ≤ 3).  Writes go to the bases, reads go through the
 // composite, and "copy" ops move everything readable through the composite into a base using
 // storage.Copy, Tar→Untar or Zip→Unzip.  Every per-op result and the final contents of every
 // base are compared with the Lean model.  The oracle (implementation only) keeps a reference
 // Go map per base and checks the map laws directly.
+//
+// Archive cases (model: lean/BufModel/Archive.lean):
+//   arc: memory bases + composite, real Tar/Zip → the entries of the produced bytes are listed with
+//        the archive/tar / archive/zip readers and compared with the model's tarOf; the bytes are
+//        extracted with the real Untar/Unzip (strip-components, path matcher, max file size)
+//        into an empty bucket and compared with extractInto.
+//   xtr: hand-written archives with hostile names, directory and symlink entries, "._" files;
+//        the entries the readers yield are given to the model, the real Untar/Unzip runs on the
+//        bytes.
 package main
 
 import (
+	"archive/tar"
+	"archive/zip"
 	"bytes"
 	"context"
+	"io"
 	"fmt"
 	"os"
 	"path/filepath"
 	"sort"
 	"strconv"
 	"strings"
+	"time"
 
 	"github.com/bufbuild/buf/private/pkg/normalpath"
 	"github.com/bufbuild/buf/private/pkg/storage"
@@ -76,6 +89,8 @@ func (e *expr) enc() string {
 		return "filt:" + e.menc + ":" + e.a.enc()
 	case "multi":
 		return "multi:" + e.a.enc() + ":" + e.b.enc()
+	case "strip":
+		return "strip:" + e.a.enc()
 	default:
 		return "ovl:" + e.a.enc() + ":" + e.b.enc()
 	}
@@ -85,7 +100,7 @@ func (e *expr) uses(i int) bool {
 	switch e.kind {
 	case "b":
 		return e.base == i
-	case "pre", "filt":
+	case "pre", "filt", "strip":
 		return e.a.uses(i)
 	default:
 		return e.a.uses(i) || e.b.uses(i)
@@ -102,6 +117,8 @@ func (e *expr) String() string {
 		return "filter(" + e.menc + ", " + e.a.String() + ")"
 	case "multi":
 		return "multi(" + e.a.String() + ", " + e.b.String() + ")"
+	case "strip":
+		return "stripExternalPaths(" + e.a.String() + ")"
 	default:
 		return "overlay(" + e.a.String() + ", " + e.b.String() + ")"
 	}
@@ -117,6 +134,8 @@ func (e *expr) build(bases []storage.ReadWriteBucket) storage.ReadBucket {
 		return storage.FilterReadBucket(e.a.build(bases), e.m)
 	case "multi":
 		return storage.MultiReadBucket(e.a.build(bases), e.b.build(bases))
+	case "strip":
+		return storage.StripReadBucketExternalPaths(e.a.build(bases))
 	default:
 		return storage.OverlayReadBucket(e.a.build(bases), e.b.build(bases))
 	}
@@ -146,6 +165,9 @@ func genMatcher(r *hx.Rand) (string, storage.Matcher) {
 func genExpr(r *hx.Rand, nb, depth int) *expr {
 	if depth == 0 || r.Chance(1, 4) {
 		return &expr{kind: "b", base: r.Intn(nb)}
+	}
+	if r.Chance(1, 8) {
+		return &expr{kind: "strip", a: genExpr(r, nb, depth-1)}
 	}
 	switch r.Intn(6) {
 	case 0, 1:
@@ -400,6 +422,27 @@ func runCase(run *hx.Run, idx int, r *hx.Rand, tmpRoot string) {
 			} else {
 				res = "ok:" + canonContent(c)
 			}
+			// oracle (Walk/Get coherence, the property's own statement): a get finds an object
+			// exactly when a walk of the whole composite lists that path, with that content
+			if np, verr := normalpath.NormalizeAndValidate(o.path); verr == nil && np != "." {
+				if all, werr := bk.WalkAll(ctx, comp, ""); werr == nil {
+					listed, lc := false, ""
+					for _, kv := range all {
+						if kv.K == np {
+							listed, lc = true, kv.V
+						}
+					}
+					run.Eval()
+					switch {
+					case err == nil && !listed:
+						fail("get-finds-unlisted-object", fmt.Sprintf("get %q through %s succeeds but a walk of the composite does not list %q", o.path, e.String(), np))
+					case err == nil && lc != c:
+						fail("get-and-walk-disagree-on-content", fmt.Sprintf("get %q through %s returns other content than the walk reports", o.path, e.String()))
+					case err != nil && listed:
+						fail("walk-lists-ungettable-object", fmt.Sprintf("walk of %s lists %q but get fails: %v", e.String(), np, err))
+					}
+				}
+			}
 		case 's':
 			_, err := comp.Stat(ctx, o.path)
 			res = bk.ErrClass(err)
@@ -500,6 +543,7 @@ func runCase(run *hx.Run, idx int, r *hx.Rand, tmpRoot string) {
 			}
 		}
 	}
+	checkStrip(run, e, bases, fail)
 	var sb strings.Builder
 	sb.WriteString(strings.Join(results, ";"))
 	for i := range bases {
@@ -641,6 +685,527 @@ func doCopy(comp storage.ReadBucket, target storage.ReadWriteBucket, how string,
 	return cnt, err
 }
 
+// stripNodes collects every StripReadBucketExternalPaths node of the expression.
+func (e *expr) stripNodes(out *[]*expr) {
+	switch e.kind {
+	case "b":
+	case "pre", "filt":
+		e.a.stripNodes(out)
+	case "strip":
+		*out = append(*out, e)
+		e.a.stripNodes(out)
+	default:
+		e.a.stripNodes(out)
+		e.b.stripNodes(out)
+	}
+}
+
+// checkStrip is the oracle for storage.StripReadBucketExternalPaths: for every strip node, Walk,
+// Stat and Get give the same paths/contents/errors as the wrapped bucket, and every object
+// reports ExternalPath == Path.
+func checkStrip(run *hx.Run, e *expr, bases []storage.ReadWriteBucket, fail func(class, what string)) {
+	var nodes []*expr
+	e.stripNodes(&nodes)
+	for _, n := range nodes {
+		inner := n.a.build(bases)
+		outer := storage.StripReadBucketExternalPaths(inner)
+		type seen struct{ path, ext string }
+		var ip, op []seen
+		ierr := inner.Walk(ctx, "", func(oi storage.ObjectInfo) error { ip = append(ip, seen{oi.Path(), oi.ExternalPath()}); return nil })
+		oerr := outer.Walk(ctx, "", func(oi storage.ObjectInfo) error { op = append(op, seen{oi.Path(), oi.ExternalPath()}); return nil })
+		run.Count("strip:node-checked")
+		if bk.ErrClass(ierr) != bk.ErrClass(oerr) {
+			fail("strip-changes-result", fmt.Sprintf("walk through %s: wrapped %v, stripped %v", n.String(), ierr, oerr))
+			continue
+		}
+		if ierr != nil {
+			continue
+		}
+		if len(ip) != len(op) {
+			fail("strip-changes-result", fmt.Sprintf("walk through %s lists %d objects, wrapped bucket %d", n.String(), len(op), len(ip)))
+			continue
+		}
+		for i := range ip {
+			if ip[i].path != op[i].path {
+				fail("strip-changes-result", fmt.Sprintf("walk through %s: object %d is %q, wrapped bucket %q", n.String(), i, op[i].path, ip[i].path))
+			}
+			if op[i].ext != op[i].path {
+				fail("strip-external-path-kept", fmt.Sprintf("walk through %s: %q has ExternalPath %q", n.String(), op[i].path, op[i].ext))
+			}
+			if ip[i].ext != ip[i].path {
+				run.Count("strip:external-path-differed")
+			}
+			if op[i].path == "." {
+				continue
+			}
+			oi, serr := outer.Stat(ctx, op[i].path)
+			_, sierr := inner.Stat(ctx, op[i].path)
+			if bk.ErrClass(serr) != bk.ErrClass(sierr) {
+				fail("strip-changes-result", fmt.Sprintf("stat %q through %s: %v, wrapped %v", op[i].path, n.String(), serr, sierr))
+			} else if serr == nil && (oi.ExternalPath() != oi.Path() || oi.Path() != op[i].path) {
+				fail("strip-external-path-kept", fmt.Sprintf("stat %q through %s: Path %q ExternalPath %q", op[i].path, n.String(), oi.Path(), oi.ExternalPath()))
+			}
+			ro, gerr := outer.Get(ctx, op[i].path)
+			ci, gierr := bk.ReadAll(ctx, inner, op[i].path)
+			if bk.ErrClass(gerr) != bk.ErrClass(gierr) {
+				fail("strip-changes-result", fmt.Sprintf("get %q through %s: %v, wrapped %v", op[i].path, n.String(), gerr, gierr))
+			} else if gerr == nil {
+				data, _ := io.ReadAll(ro)
+				if ro.ExternalPath() != ro.Path() || ro.Path() != op[i].path {
+					fail("strip-external-path-kept", fmt.Sprintf("get %q through %s: Path %q ExternalPath %q", op[i].path, n.String(), ro.Path(), ro.ExternalPath()))
+				}
+				ro.Close()
+				if string(data) != ci {
+					fail("strip-changes-result", fmt.Sprintf("get %q through %s returns different content than the wrapped bucket", op[i].path, n.String()))
+				}
+			}
+		}
+		// a path that is not there
+		_, e1 := outer.Stat(ctx, "no/such/object")
+		_, e2 := inner.Stat(ctx, "no/such/object")
+		if bk.ErrClass(e1) != bk.ErrClass(e2) {
+			fail("strip-changes-result", fmt.Sprintf("stat of a missing path through %s: %v, wrapped %v", n.String(), e1, e2))
+		}
+	}
+}
+
+// ---------------------------------------------------------------------------------------
+// archives
+
+type aent struct {
+	name, kind, content string // kind: r d o
+}
+
+func kindOf(m os.FileMode) string {
+	switch {
+	case m.IsRegular():
+		return "r"
+	case m.IsDir():
+		return "d"
+	default:
+		return "o"
+	}
+}
+
+// listTar / listZip: the entries the archive READERS yield for the bytes (independent of buf).
+func listTar(b []byte) ([]aent, error) {
+	var out []aent
+	tr := tar.NewReader(bytes.NewReader(b))
+	for {
+		h, err := tr.Next()
+		if err == io.EOF {
+			return out, nil
+		}
+		if err != nil {
+			return nil, err
+		}
+		data, err := io.ReadAll(tr)
+		if err != nil {
+			return nil, err
+		}
+		out = append(out, aent{h.Name, kindOf(h.FileInfo().Mode()), string(data)})
+	}
+}
+
+func listZip(b []byte) ([]aent, error) {
+	if len(b) == 0 {
+		return nil, nil
+	}
+	zr, err := zip.NewReader(bytes.NewReader(b), int64(len(b)))
+	if err != nil {
+		return nil, err
+	}
+	var out []aent
+	for _, f := range zr.File {
+		content := ""
+		if f.FileInfo().Mode().IsRegular() {
+			rc, err := f.Open()
+			if err != nil {
+				return nil, err
+			}
+			data, err := io.ReadAll(rc)
+			rc.Close()
+			if err != nil {
+				return nil, err
+			}
+			content = string(data)
+		}
+		out = append(out, aent{f.Name, kindOf(f.FileInfo().Mode()), content})
+	}
+	return out, nil
+}
+
+func encContent(c string) string {
+	if c == "" {
+		return "-"
+	}
+	return c
+}
+
+func dumpEntries(es []aent) string {
+	type kv struct{ k, v string }
+	kvs := make([]kv, len(es))
+	for i, e := range es {
+		kvs[i] = kv{hx.Enc(e.name) + ":" + e.kind, e.content}
+	}
+	sort.SliceStable(kvs, func(i, j int) bool { return kvs[i].k < kvs[j].k })
+	parts := make([]string, len(kvs))
+	for i, x := range kvs {
+		parts[i] = x.k + "=" + x.v
+	}
+	return strings.Join(parts, ",")
+}
+
+type xopts struct {
+	zip     bool
+	strip   int
+	menc    string
+	matcher storage.Matcher
+	maxSize int
+}
+
+func genXopts(r *hx.Rand) xopts {
+	o := xopts{zip: r.Chance(1, 2), menc: "-"}
+	switch r.Intn(6) {
+	case 0, 1, 2:
+		o.strip = 0
+	case 3, 4:
+		o.strip = 1
+	default:
+		o.strip = 2
+	}
+	if r.Chance(1, 4) {
+		if r.Bool() {
+			o.menc, o.matcher = "ext:"+hx.Enc(".proto"), storage.MatchPathExt(".proto")
+		} else {
+			o.menc, o.matcher = "not:ext:"+hx.Enc(".proto"), storage.MatchNot(storage.MatchPathExt(".proto"))
+		}
+	}
+	if !o.zip && r.Chance(1, 5) {
+		o.maxSize = 3
+	}
+	return o
+}
+
+func (o xopts) fmtName() string {
+	if o.zip {
+		return "zip"
+	}
+	return "tar"
+}
+
+func (o xopts) fields() string {
+	return o.fmtName() + "\t" + strconv.Itoa(o.strip) + "\t" + o.menc + "\t" + strconv.Itoa(o.maxSize)
+}
+
+// extract runs the real Untar / Unzip on the bytes into a fresh memory bucket.
+func (o xopts) extract(b []byte) (string, []bk.KV) {
+	dest := storagemem.NewReadWriteBucket()
+	var err error
+	if o.zip {
+		opts := []storagearchive.UnzipOption{storagearchive.UnzipWithStripComponentCount(uint32(o.strip))}
+		if o.matcher != nil {
+			opts = append(opts, storagearchive.UnzipWithFilePathMatcher(o.matcher.MatchPath))
+		}
+		err = storagearchive.Unzip(ctx, bytes.NewReader(b), int64(len(b)), dest, opts...)
+	} else {
+		opts := []storagearchive.UntarOption{storagearchive.UntarWithStripComponentCount(uint32(o.strip))}
+		if o.matcher != nil {
+			opts = append(opts, storagearchive.UntarWithFilePathMatcher(o.matcher.MatchPath))
+		}
+		if o.maxSize != 0 {
+			opts = append(opts, storagearchive.UntarWithMaxFileSize(int64(o.maxSize)))
+		}
+		err = storagearchive.Untar(ctx, bytes.NewReader(b), dest, opts...)
+	}
+	final, werr := bk.WalkAll(ctx, dest, "")
+	must(werr)
+	return bk.ErrClass(err), final
+}
+
+func isAppleName(p string) bool {
+	return strings.HasPrefix(p[strings.LastIndex(p, "/")+1:], "._")
+}
+
+var arcPool = []string{"a/x", "a/y.proto", "a/sub/z", "b", "c/d/e", "a.b", "s t/u", "é/n", "ab", "a/x.proto",
+	"top/p.proto", "top/q", "top/in/r", "a/._res", "._top", "c/d/._e", "a", "c/d"}
+var arcContents = []string{"C0", "C1", "xy", "-", "0123456789", "pp"}
+
+// runArc: real Tar/Zip of a composite over memory bases, entries listed from the bytes, then the
+// real Untar/Unzip of those bytes.
+func runArc(run *hx.Run, idx int, r *hx.Rand) {
+	nb := 1 + r.Intn(3)
+	bases := make([]storage.ReadWriteBucket, nb)
+	for i := range bases {
+		bases[i] = storagemem.NewReadWriteBucket()
+	}
+	e := genExpr(r, nb, r.Intn(4))
+	comp := e.build(bases)
+	var puts []string
+	var putDescr []string
+	nPuts := 2 + r.Intn(9)
+	for i := 0; i < nPuts; i++ {
+		o := op{kind: 'p', base: r.Intn(nb), path: spell(r, hx.Pick(r, arcPool)), content: hx.Pick(r, arcContents), how: "plain"}
+		if err := bk.PutString(ctx, bases[o.base], o.path, materialize(o.content)); err != nil {
+			continue
+		}
+		puts = append(puts, o.enc())
+		putDescr = append(putDescr, o.String())
+	}
+	xo := genXopts(r)
+	input := map[string]any{"expr": e.String(), "puts": putDescr, "format": xo.fmtName(), "strip": xo.strip, "matcher": xo.menc, "max_size": xo.maxSize}
+	fail := func(class, what string) {
+		run.Fail(hx.OracleFailure{Class: class, What: what, Input: input,
+			Replay: fmt.Sprintf("build/c14 --out /tmp/c14-replay --seed %d --tier %s (archive case %d)", run.Seed, run.Tier, idx)})
+	}
+	defer func() {
+		if p := recover(); p != nil {
+			fail("harness-panic", fmt.Sprint(p))
+		}
+	}()
+	putsEnc := "-"
+	if len(puts) > 0 {
+		putsEnc = strings.Join(puts, ";")
+	}
+	line := "arc\t" + xo.fields() + "\t" + e.enc() + "\t" + strconv.Itoa(nb) + "\t" + putsEnc
+	var buf bytes.Buffer
+	var err error
+	if xo.zip {
+		err = storagearchive.Zip(ctx, comp, &buf, r.Bool())
+	} else {
+		err = storagearchive.Tar(ctx, comp, &buf)
+	}
+	if err != nil {
+		run.Count("arc:" + xo.fmtName() + ":write-error")
+		run.Case(line, "err", false)
+		return
+	}
+	var ents []aent
+	if xo.zip {
+		ents, err = listZip(buf.Bytes())
+	} else {
+		ents, err = listTar(buf.Bytes())
+	}
+	must(err)
+	res, final := xo.extract(buf.Bytes())
+	run.Count("arc:" + xo.fmtName() + ":" + res)
+	run.Count("arc:strip=" + strconv.Itoa(xo.strip))
+	if len(ents) == 0 {
+		run.Count("arc:empty-archive")
+	} else if len(final) > 0 {
+		run.Count("arc:objects-extracted")
+	}
+	// oracle (implementation only): the archive lists exactly the walked objects with the
+	// contents Get returns; a plain round trip reproduces the composite (minus "._" names)
+	src, werr := bk.WalkAll(ctx, comp, "")
+	if werr != nil {
+		fail("tar-succeeds-although-walk-fails", fmt.Sprintf("%s of %s succeeded but walking it fails: %v", xo.fmtName(), e.String(), werr))
+	} else {
+		want := map[string]string{}
+		for _, kv := range src {
+			want[kv.K] = kv.V
+		}
+		got := map[string]string{}
+		for _, en := range ents {
+			if _, dup := got[en.name]; dup {
+				fail("tar-entry-twice", fmt.Sprintf("%s of %s holds entry %q twice", xo.fmtName(), e.String(), en.name))
+			}
+			if en.kind != "r" {
+				fail("tar-entry-not-regular", fmt.Sprintf("%s of %s holds non-regular entry %q", xo.fmtName(), e.String(), en.name))
+			}
+			got[en.name] = en.content
+		}
+		if !sameMap(want, got) {
+			fail("tar-entries-differ-from-walk", fmt.Sprintf("%s of %s holds %v but the bucket holds %v", xo.fmtName(), e.String(), keys(got), keys(want)))
+		}
+		if xo.strip == 0 && xo.matcher == nil && xo.maxSize == 0 {
+			exp := map[string]string{}
+			for k, v := range want {
+				if !isAppleName(k) {
+					exp[k] = v
+				}
+			}
+			back := map[string]string{}
+			for _, kv := range final {
+				back[kv.K] = kv.V
+			}
+			if res != "ok" || !sameMap(exp, back) {
+				fail("archive-roundtrip-differs", fmt.Sprintf("%s round trip of %s: result %s, extracted %v, source %v", xo.fmtName(), e.String(), res, keys(back), keys(exp)))
+			}
+			run.Eval()
+		}
+	}
+	run.Case(line, dumpEntries(ents)+"|"+res+"|"+bk.Dump(final), len(final) > 0)
+	if idx < 2 {
+		input["entries"] = len(ents)
+		input["result"] = res
+		run.Sample(input)
+	}
+}
+
+var hostileNames = []string{"a/x", "top/a/x", "top/b", "./top/c", "top//d", "../evil", "top/../../evil", "/abs/e",
+	"top/..", "top/./e/../f", "..", "a/../../outside.txt", "t/é", "t/s p", "top", "x/y/z/w.proto", "top/../sent", "._apple",
+	"top/._res", "../._x", "top/._d/.", "../._d/.", "top/p.proto", "top/sub/q.proto", ".", "./", "top/", "a/b/", "._dir/", "x/._y/z"}
+
+// runXtr: a hand-written archive (hostile names, directories, symlinks, "._" files).
+func runXtr(run *hx.Run, idx int, r *hx.Rand) {
+	xo := genXopts(r)
+	ne := 1 + r.Intn(5)
+	type went struct {
+		name, kind, content string
+	}
+	var ws []went
+	for j := 0; j < ne; j++ {
+		w := went{name: hx.Pick(r, hostileNames), kind: "r", content: hx.Pick(r, arcContents)}
+		if r.Chance(1, 6) {
+			w.kind = "d"
+		} else if r.Chance(1, 10) {
+			w.kind = "o"
+		}
+		if w.content == "-" {
+			w.content = ""
+		}
+		ws = append(ws, w)
+	}
+	var buf bytes.Buffer
+	okBuild := true
+	if xo.zip {
+		zw := zip.NewWriter(&buf)
+		for _, w := range ws {
+			fh := &zip.FileHeader{Name: w.name, Method: zip.Store}
+			switch w.kind {
+			case "d":
+				if !strings.HasSuffix(fh.Name, "/") {
+					fh.Name += "/"
+				}
+			case "o":
+				fh.SetMode(os.ModeSymlink | 0o777)
+			}
+			fw, err := zw.CreateHeader(fh)
+			if err != nil {
+				okBuild = false
+				break
+			}
+			if w.kind != "d" && !strings.HasSuffix(fh.Name, "/") {
+				if _, err := fw.Write([]byte(w.content)); err != nil {
+					okBuild = false
+					break
+				}
+			}
+		}
+		if zw.Close() != nil {
+			okBuild = false
+		}
+	} else {
+		tw := tar.NewWriter(&buf)
+		for _, w := range ws {
+			h := &tar.Header{Typeflag: tar.TypeReg, Name: w.name, Size: int64(len(w.content)), Mode: 0o644}
+			if w.kind == "r" && strings.HasSuffix(w.name, "/") {
+				w.kind = "d" // the tar writer refuses a regular file whose name ends in '/'
+			}
+			switch w.kind {
+			case "d":
+				h.Typeflag, h.Size, h.Mode = tar.TypeDir, 0, 0o755
+			case "o":
+				h.Typeflag, h.Size, h.Linkname = tar.TypeSymlink, 0, "target"
+			}
+			if err := tw.WriteHeader(h); err != nil {
+				okBuild = false
+				break
+			}
+			if h.Size > 0 {
+				if _, err := tw.Write([]byte(w.content)); err != nil {
+					okBuild = false
+					break
+				}
+			}
+		}
+		if tw.Close() != nil {
+			okBuild = false
+		}
+	}
+	if !okBuild {
+		run.Count("xtr:unbuildable:" + xo.fmtName())
+		return
+	}
+	var ents []aent
+	var err error
+	if xo.zip {
+		ents, err = listZip(buf.Bytes())
+	} else {
+		ents, err = listTar(buf.Bytes())
+	}
+	if err != nil {
+		run.Count("xtr:unreadable")
+		return
+	}
+	names := make([]string, len(ents))
+	encs := make([]string, len(ents))
+	for i, en := range ents {
+		names[i] = en.kind + " " + strconv.Quote(en.name)
+		encs[i] = hx.Enc(en.name) + ":" + en.kind + ":" + encContent(en.content)
+	}
+	input := map[string]any{"format": xo.fmtName(), "strip": xo.strip, "matcher": xo.menc, "max_size": xo.maxSize, "entries": names}
+	fail := func(class, what string) {
+		run.Fail(hx.OracleFailure{Class: class, What: what, Input: input,
+			Replay: fmt.Sprintf("build/c14 --out /tmp/c14-replay --seed %d --tier %s (extract case %d)", run.Seed, run.Tier, idx)})
+	}
+	defer func() {
+		if p := recover(); p != nil {
+			fail("harness-panic", fmt.Sprint(p))
+		}
+	}()
+	res, final := xo.extract(buf.Bytes())
+	run.Count("xtr:" + xo.fmtName() + ":" + res)
+	// oracle (implementation only): everything extracted is a normalised path obtained from a
+	// regular entry by strip-components, with that entry's content
+	for _, kv := range final {
+		ok := false
+		for _, en := range ents {
+			if en.kind != "r" || en.content != kv.V {
+				continue
+			}
+			if n, nerr := normalpath.NormalizeAndValidate(en.name); nerr == nil && n != "." {
+				if sp, sok := normalpath.StripComponents(n, uint32(xo.strip)); sok && sp == kv.K {
+					ok = true
+				}
+			}
+		}
+		if !ok {
+			fail("extracted-object-from-nowhere", fmt.Sprintf("extraction produced %q=%q which no regular entry maps to", kv.K, kv.V))
+		}
+	}
+	entsEnc := "-"
+	if len(encs) > 0 {
+		entsEnc = strings.Join(encs, ",")
+	}
+	run.Case("xtr\t"+xo.fields()+"\t"+entsEnc, res+"|"+bk.Dump(final), len(final) > 0 || res != "ok")
+	if idx < 2 {
+		input["result"] = res
+		run.Sample(input)
+	}
+}
+
+// guarded runs one case with a watchdog: an implementation that does not return (e.g. the
+// EqualsOrContainsPath loop on a path that never reaches ".") is an oracle failure, not a hang of
+// the whole check.
+func guarded(run *hx.Run, what string, cleanup func(), f func()) {
+	done := make(chan struct{})
+	go func() {
+		defer close(done)
+		f()
+	}()
+	select {
+	case <-done:
+	case <-time.After(120 * time.Second):
+		run.Fail(hx.OracleFailure{Class: "implementation-hang", What: what + " did not return within 120 s",
+			Input: map[string]any{"case": what}, Replay: fmt.Sprintf("build/c14 --out /tmp/c14-replay --seed %d --tier %s", run.Seed, run.Tier)})
+		run.Finish()
+		cleanup()
+		os.Exit(0)
+	}
+}
+
 func main() {
 	run := hx.Start("C14")
 	r := hx.NewRand(run.Seed)
@@ -652,7 +1217,19 @@ func main() {
 		if run.Only >= 0 && run.Only != i {
 			continue
 		}
-		runCase(run, i, r.Fork(uint64(i)), tmpRoot)
+		guarded(run, fmt.Sprintf("history case %d", i), func() { os.RemoveAll(tmpRoot) }, func() { runCase(run, i, r.Fork(uint64(i)), tmpRoot) })
+	}
+	if run.Only < 0 {
+		ra := r.Fork(1 << 40)
+		na := run.N(500, 10000)
+		for i := 0; i < na; i++ {
+			guarded(run, fmt.Sprintf("archive case %d", i), func() { os.RemoveAll(tmpRoot) }, func() { runArc(run, i, ra.Fork(uint64(i))) })
+		}
+		rx := r.Fork(1 << 41)
+		nx := run.N(500, 10000)
+		for i := 0; i < nx; i++ {
+			guarded(run, fmt.Sprintf("extract case %d", i), func() { os.RemoveAll(tmpRoot) }, func() { runXtr(run, i, rx.Fork(uint64(i))) })
+		}
 	}
 	run.Finish()
 }
